@@ -177,6 +177,7 @@ def run_c01(repo, tier, seed, only=None):
     fixed = ['!force {a: {b: [1, 2]}}', '{_x: 1, y: {_z: [1, {_w: 2}]}}', '{a: !del [1, [2, 3]], b: !merge {c: !weak 1}}', '{a: !new {b: !unsafe [1, 2]}}',
              "{a: !metadata{{'k': 1}} 5, b: !metadata{{'priority': 1, 'm': 'x'}} [1, 2]}", '{1: a, 2.5: b, c: 1.5, d: null, e: true, f: "1"}',
              # float and int keys whose value is a container (with and without tags), at several depths
+             '{stages: [{a: 1}, {b: 2}], other: 1}', '{stages: 5, builder: {stages: [1]}}', '!force {stages: [{lr: 0.1}], builder: 1}',
              '{a: {2.5: {b: 1}}}', '{a: {2.5: !force [1, 2]}}', '{0.5: [], b: 1}', '{a: !del {b: {c: [1, {1.5: {d: [2, 3]}}]}}}', '{-1: {x: [1]}, 7: !merge [2]}']
     cases = [(t, None) for t in fixed]
     for _ in range(n_cases(tier, 300, 5000)):
@@ -514,6 +515,16 @@ def run_c12(repo, tier, seed, only=None):
         R.case((prog, tuple(vals)), {'program': prog, 'values_of_a_in_successive_builds': vals})
         if rc != 0 or res != exp:
             R.fail('bounded:C12.value-depends-only-on-the-current-build', f'program {prog!r} built with a={vals} in one process: expected {exp!r}, got {res!r} (exit {rc!r})', {'family': 'c12', 'docs': [prog], 'values': vals})
+    # a symbol supplied to an EARLIER build only: the later build (same code text at the same path) sees its own config entry, or a NameError
+    for code in ('s', 's + 0', 'x = s\nx'):
+        seqs = [{'text': 'e: !eval |\n' + ''.join('    ' + l + '\n' for l in code.split('\n')), 'filename': 'm.yaml', 'symbols': {'s': 7}},
+                {'text': 's: 1\ne: !eval |\n' + ''.join('    ' + l + '\n' for l in code.split('\n')), 'filename': 'm.yaml', 'symbols': {}},
+                {'text': 'e: !eval |\n' + ''.join('    ' + l + '\n' for l in code.split('\n')), 'filename': 'm.yaml', 'symbols': {}}]
+        res, rc = eval_in_subprocess(repo, seqs)
+        R.case(('symbol-then-config', code), {'program': code})
+        exp = [['ok', '7'], ['ok', '1'], ['err', 'EvalError', 'NameError']]
+        if rc != 0 or res != exp:
+            R.fail('bounded:C12.value-depends-only-on-the-current-build', f'program {code!r}: build 1 with symbol s=7, build 2 with config entry s: 1, build 3 with neither: expected {exp!r}, got {res!r} (exit {rc!r})', {'family': 'c12', 'docs': [code]})
     # symbols of the evaluation context
     seqs = [{'text': yaml_eval_doc('s = sym\ns', {'a': 1}), 'filename': 'm.yaml', 'symbols': {'sym': v}} for v in (11, 22)]
     res, rc = eval_in_subprocess(repo, seqs)
@@ -555,6 +566,10 @@ def run_c13(repo, tier, seed, only=None):
                   ("!call:builtins._verif_c13_abc {0: 'p', c: 'r'}", ('abc', 'p', None, 'r')), ("!call:builtins._verif_c13_abc {0: 'p', 2: 'r'}", ('abc', 'p', None, 'r')),
                   ("!call:builtins._verif_c13_abc {a: 'ab', b: 'cd'}", ('abc', 'ab', 'cd', None)), ("!bind:builtins._verif_c13_abc {b: 'xy', 0: 'hello'}", ('abc', 'hello', 'xy', None)),
                   ("!call:builtins._verif_c13_any {k: 'vw', 0: 'hello'}", ('any', ('hello',), (('k', 'vw'),)))]
+        ERR = ('error',)
+        for kind in ('!call', '!bind'):
+            cases += [(kind + ":builtins._verif_c13_abc {0: 1, 2: 3, c: 7}", ERR), (kind + ":builtins._verif_c13_abc {1: 5, b: 6, a: 1}", ERR), (kind + ":builtins._verif_c13_abc {0: 1, 5: 2}", ERR),
+                      (kind + ":builtins._verif_c13_abc {0: 1, 2: 3}", ('abc', 1, None, 3))]
         for _ in range(n_cases(tier, 30, 300)):
             n = rng.randint(0, 3)
             vals = [rng.choice(['ab', '', 'x', 0, 1.5, True, 'long text']) for _ in range(n)]
@@ -570,6 +585,10 @@ def run_c13(repo, tier, seed, only=None):
                 got = ('error', type(e).__name__, str(e)[:120])
             R.case(text, {'doc': doc, 'expected_call': repr(want)})
             flat = lambda t: list(t[1]) if t and t[0] == 'any' else list(t[1:])
+            if want == ('error',):
+                if not (isinstance(got, tuple) and got and got[0] == 'error'):
+                    R.fail(name, f'{doc!r}: binding a parameter twice / an index beyond the signature is an error, got {got!r}'[:600], {'family': 'c13', 'docs': [doc]})
+                continue
             if got != want or [type(x) for x in flat(got)] != [type(x) for x in flat(want)]:
                 R.fail(name, f'{doc!r}: the target should be called as {want!r}, got {got!r}'[:600], {'family': 'c13', 'docs': [doc]})
     finally:
